@@ -266,6 +266,81 @@ def probe_d13():
     return calls.count("l") != 1, f"guard calls {calls}"
 
 
+def probe_d41():
+    """an `unless` guard name provided by the machine (falsy) and by a listener (truthy): attached at construction the
+    transition fires (`not (machine and listener)`), attached later it is refused (`not machine and not listener`)"""
+    import warnings
+    from statemachine import State, StateMachine
+    from statemachine.exceptions import TransitionNotAllowed
+    with warnings.catch_warnings():
+        warnings.simplefilter("ignore")
+
+        def mk():
+            class M(StateMachine):
+                a = State(initial=True)
+                b = State()
+                go = a.to(b, unless="blocked")
+
+                def blocked(self):
+                    return False
+            return M
+
+        class L:
+            def blocked(self):
+                return True
+
+        def fires(sm):
+            try:
+                sm.go()
+                return True
+            except TransitionNotAllowed:
+                return False
+        at_ctor = fires(mk()(listeners=[L()]))
+        sm = mk()()
+        sm.add_listener(L())
+        late = fires(sm)
+    return at_ctor != late, f"constructor listener: fires={at_ctor}; the same listener attached later: fires={late}"
+
+
+def probe_d41b():
+    """a late listener that provides only one of the two names of a guard expression is ignored; as a constructor
+    listener it takes part"""
+    import warnings
+    from statemachine import State, StateMachine
+    from statemachine.exceptions import TransitionNotAllowed
+    with warnings.catch_warnings():
+        warnings.simplefilter("ignore")
+
+        def mk():
+            class M(StateMachine):
+                a = State(initial=True)
+                b = State()
+                go = a.to(b, cond="ok and fine")
+
+                def ok(self):
+                    return True
+
+                def fine(self):
+                    return True
+            return M
+
+        class L:
+            def ok(self):
+                return False
+
+        def fires(sm):
+            try:
+                sm.go()
+                return True
+            except TransitionNotAllowed:
+                return False
+        at_ctor = fires(mk()(listeners=[L()]))
+        sm = mk()()
+        sm.add_listener(L())
+        late = fires(sm)
+    return at_ctor != late, f"constructor listener: fires={at_ctor}; the same listener attached later: fires={late}"
+
+
 def run_corpus(ctx):
     """regression inputs of fixed findings: plain programs with asserts"""
     import os
@@ -323,7 +398,11 @@ def run(ctx):
     ctx.coverage["distribution_sync"] = cov1.get("distribution")
     known = {k.get("exclusion"): k for k in known_findings("C12") if k.get("status") == "known"}
     for key, probe, title in (("late-async-listener-on-sync-machine", probe_d12, "async listener attached late is never awaited"),
-                              ("guard-reevaluated-per-reattachment", probe_d13, "guard of a re-attached listener evaluated more than once")):
+                              ("guard-reevaluated-per-reattachment", probe_d13, "guard of a re-attached listener evaluated more than once"),
+                              ("unless-name-several-providers-ctor-vs-late", probe_d41,
+                               "an unless guard provided by machine and listener decides differently for a constructor listener and a late one"),
+                              ("late-listener-providing-part-of-a-guard-expression", probe_d41b,
+                               "a listener providing one name of a guard expression counts at construction, not when attached later")):
         bad, what = probe()
         if bad:
             if key in known:
